@@ -377,3 +377,19 @@ Definition needs_mono (ps : list param) (args : list tm) (i : nat) : bool :=
                         (negb (is_nat oty) && existsb (Nat.eqb i) (bound_vars oty))
                         || (negb (is_nat (insf args oty)) && (i =? j))
                     | _ => false end) ps.
+
+(* ------------------------------------------------------------------ rows at call sites - *)
+(* tys/ty.py type_to_row *)
+Definition type_to_row (t : tm) : list tm :=
+  match t with TNone false => [] | TTup ts false => ts | _ => [t] end.
+(* compiler/expr_compiler.py ExprCompiler._pack_returns: how many return wires of the call it
+   consumes for a callee whose (instantiated) return type is t *)
+Definition pack_returns_consumes (t : tm) : nat :=
+  match t with
+  | TNone false => length (type_to_row t)
+  | TTup _ false => length (type_to_row t)
+  | _ => 1
+  end.
+(* regular (non-inout) output ports of the HUGR function declared for a signature with return
+   type t: _to_hugr_function_type uses type_to_row(output) *)
+Definition declared_outs (t : tm) : nat := length (type_to_row t).
